@@ -46,12 +46,16 @@ pub fn generate(seed: u64, tier: &str, out: &mut dyn std::io::Write) {
                     _ => r.range(1, 64),
                 };
                 let n = n.min(*len + 16);
-                let start = match r.below(5) {
+                // the first page of the pattern pages starts right after an unmapped page
+                let mstart = end - ((*len + t.page - 1) / t.page) * t.page;
+                let head = r.chance(1, 6);
+                let n = if head { r.range(1, 17) } else { n };
+                let start = if head { mstart + r.below(9) } else { match r.below(5) {
                     0 => end - n.min(*len),                                  // ends exactly at the end
                     1 => (end + r.range(1, 9)).saturating_sub(n).max(*addr), // crosses the end by 1..9 bytes
                     2 => end - 1 - r.below(n.min(*len)),                     // crosses by more
                     _ => addr + r.below(len - n.min(*len) + 1),              // inside
-                };
+                } };
                 // stay within the pattern pages and the one trailing page (what lies beyond is not described)
                 let n = if start + n > end + t.page { end + t.page - start } else { n };
                 for strat in ["v", "f", "p"] {
@@ -70,8 +74,8 @@ pub fn generate(seed: u64, tier: &str, out: &mut dyn std::io::Write) {
                     };
                     writeln!(
                         out,
-                        "C17 m{}-{}-{} kind=read strat={} src={} len={} region={}:{}:{} page={} result={} data={}",
-                        seed, round, idx, strat, start, n, addr, len, kind, t.page, result, data
+                        "C17 m{}-{}-{} kind=read strat={} src={} len={} region={}:{}:{} page={} result={} data={}{}",
+                        seed, round, idx, strat, start, n, addr, len, kind, t.page, result, data, if head { " head=1" } else { "" }
                     )
                     .unwrap();
                     idx += 1;
